@@ -37,8 +37,10 @@ type pipeEnd struct {
 	onClose func()
 }
 
-func newPipe() (*pipeEnd, *pipeEnd) {
-	a2b, b2a := make(chan []byte, 256), make(chan []byte, 256)
+func newPipe() (*pipeEnd, *pipeEnd) { return newPipeCap(256) }
+
+func newPipeCap(n int) (*pipeEnd, *pipeEnd) {
+	a2b, b2a := make(chan []byte, n), make(chan []byte, n)
 	a := &pipeEnd{in: b2a, out: a2b, closed: make(chan struct{})}
 	b := &pipeEnd{in: a2b, out: b2a, closed: make(chan struct{})}
 	a.peer, b.peer = b, a
